@@ -1835,6 +1835,7 @@ func transformJpgo(srcDir, dstDir, shimPrefix string) {
 		fatalf("no Go files in %s", srcDir)
 	}
 	hasMain := false
+	var resetCalls []string
 	for _, fn := range files {
 		src, err := ioutil.ReadFile(fn)
 		if err != nil {
@@ -1864,27 +1865,10 @@ func transformJpgo(srcDir, dstDir, shimPrefix string) {
 				hasMain = true
 			}
 		}
-		if err := ioutil.WriteFile(filepath.Join(dstDir, filepath.Base(fn)), ed.render(), 0644); err != nil {
-			fatalf("%v", err)
-		}
-		report.JpgoFiles = append(report.JpgoFiles, filepath.Base(fn))
-	}
-	if !hasMain {
-		fatalf("cmd/jpgo has no func main")
-	}
-	// a real jpgo process starts with freshly initialised package-level variables; the
-	// in-process runs must too (purely syntactic: source order, initialiser text or zero value)
-	var resets []string
-	for _, fn := range files {
-		src, err := ioutil.ReadFile(fn)
-		if err != nil {
-			continue
-		}
-		fset := token.NewFileSet()
-		f, err := parser.ParseFile(fset, fn, src, 0)
-		if err != nil || f.Name.Name != "main" || hasIgnoreTag(f) {
-			continue
-		}
+		// a real jpgo process starts with freshly initialised package-level variables; the
+		// in-process runs must too. Purely syntactic (source order, initialiser text or zero
+		// value), appended to the SAME file so that the initialisers see their imports.
+		var resets []string
 		txt := func(n ast.Node) string {
 			return string(src[fset.Position(n.Pos()).Offset:fset.Position(n.End()).Offset])
 		}
@@ -1921,9 +1905,21 @@ func transformJpgo(srcDir, dstDir, shimPrefix string) {
 				}
 			}
 		}
+		if len(resets) > 0 {
+			name := fmt.Sprintf("zzVerifResetFile%d", len(resetCalls))
+			ed.insert(len(src), "\nfunc "+name+"() {\n"+strings.Join(resets, "\n")+"\n}\n")
+			resetCalls = append(resetCalls, "\t"+name+"()")
+		}
+		if err := ioutil.WriteFile(filepath.Join(dstDir, filepath.Base(fn)), ed.render(), 0644); err != nil {
+			fatalf("%v", err)
+		}
+		report.JpgoFiles = append(report.JpgoFiles, filepath.Base(fn))
+	}
+	if !hasMain {
+		fatalf("cmd/jpgo has no func main")
 	}
 	extra := "// Code generated by /verif/instr. DO NOT EDIT.\n\npackage jpgomain\n\n// VerifMain runs jpgo's real main function.\nfunc VerifMain() { main() }\n\n" +
-		"// VerifReset gives the package-level variables the values a fresh process would start with.\nfunc VerifReset() {\n" + strings.Join(resets, "\n") + "\n}\n"
+		"// VerifReset gives the package-level variables the values a fresh process would start with.\nfunc VerifReset() {\n" + strings.Join(resetCalls, "\n") + "\n}\n"
 	if err := ioutil.WriteFile(filepath.Join(dstDir, "zz_verif_main.go"), []byte(extra), 0644); err != nil {
 		fatalf("%v", err)
 	}
